@@ -176,10 +176,35 @@ func (e *Engine) pureApp(st *State, fn *ssa.Function, args []Val) Val {
 		t = name
 	}
 	v := term(t, rt)
-	if c := e.rangeConstraintBV(t, rt); c != "" {
-		st.assume(c)
-	}
+	e.pureRangeAxiom(name, sorts, rt)
 	return v
+}
+
+// pureRangeAxiom states the type's range for every application of an uninterpreted function.
+func (e *Engine) pureRangeAxiom(name string, sorts []string, rt types.Type) {
+	key := "ax_range_" + name
+	if e.S.has(key) {
+		return
+	}
+	e.S.decls[key] = &Decl{}
+	var vars, args []string
+	for i, s := range sorts {
+		vars = append(vars, fmt.Sprintf("(a!%d %s)", i, s))
+		args = append(args, fmt.Sprintf("a!%d", i))
+	}
+	app := name
+	if len(args) > 0 {
+		app = fmt.Sprintf("(%s %s)", name, strings.Join(args, " "))
+	}
+	c := e.rangeConstraintBV(app, rt)
+	if c == "" {
+		return
+	}
+	if len(args) == 0 {
+		e.S.AddAxiom([]string{name}, c)
+		return
+	}
+	e.S.AddAxiom([]string{name}, fmt.Sprintf("(forall (%s) (! %s :pattern (%s)))", strings.Join(vars, " "), c, app))
 }
 
 func (e *Engine) pureMethodApp(st *State, recvT types.Type, method string, recv Val, args []Val, sig *types.Signature) Val {
@@ -194,9 +219,7 @@ func (e *Engine) pureMethodApp(st *State, recvT types.Type, method string, recv 
 	rt := sig.Results().At(0).Type()
 	e.S.DeclareFun(name, sorts, e.sortOf(rt))
 	t := fmt.Sprintf("(%s %s)", name, strings.Join(ts, " "))
-	if c := e.rangeConstraintBV(t, rt); c != "" {
-		st.assume(c)
-	}
+	e.pureRangeAxiom(name, sorts, rt)
 	return term(t, rt)
 }
 
@@ -708,29 +731,29 @@ func (e *Engine) resolveModifies(st *State, env *Env, m string) modLoc {
 	return modLoc{}
 }
 
-// checkFrame: everything outside the modifies clause is unchanged for objects
-// that existed at entry.
-func (e *Engine) checkFrame(st *State, fn *ssa.Function, c *Contract, env *Env) {
-	if c.ModAll || c.Opts["frame"] == "off" {
-		return
+type frameDecl struct {
+	all  bool
+	refs []string
+}
+
+// frameDecls resolves the unit's modifies clause against the entry state.
+func (e *Engine) frameDecls(st *State) map[string]*frameDecl {
+	if e.fdecls != nil {
+		return e.fdecls
 	}
-	// declared locations per heap map
-	type decl struct {
-		all  bool
-		refs []string
-	}
-	decls := map[string]*decl{}
-	oldEnv := *env
-	oldEnv.st = st.old
+	c := e.unit.C
+	decls := map[string]*frameDecl{}
+	fr := st.frames[0]
+	oldEnv := e.envFor(st.old, fr, st.old)
 	oldEnv.inEnsures = true
 	for _, m := range c.Modifies {
-		loc := e.resolveModifies(st.old, &oldEnv, m)
+		loc := e.resolveModifies(st.old, oldEnv, m)
 		if loc.ghost != "" {
 			continue
 		}
 		d := decls[loc.heap]
 		if d == nil {
-			d = &decl{}
+			d = &frameDecl{}
 			decls[loc.heap] = d
 		}
 		if loc.all {
@@ -739,34 +762,49 @@ func (e *Engine) checkFrame(st *State, fn *ssa.Function, c *Contract, env *Env) 
 			d.refs = append(d.refs, loc.ref)
 		}
 	}
+	e.fdecls = decls
+	return decls
+}
+
+// frameFormula: objects existing at entry are unchanged in heap map h outside the modifies clause.
+func (e *Engine) frameFormula(st *State, h string) string {
+	c := e.unit.C
+	if c == nil || c.ModAll || c.Opts["frame"] == "off" {
+		return ""
+	}
+	cur, ok := st.heap[h]
+	init := h + "!0"
+	if !ok || cur == init {
+		return ""
+	}
+	d := e.frameDecls(st)[h]
+	if d != nil && d.all {
+		return ""
+	}
+	if strings.HasPrefix(h, "G_") {
+		return fmt.Sprintf("(= %s %s)", cur, init)
+	}
+	var excl []string
+	if d != nil {
+		for _, r := range d.refs {
+			excl = append(excl, fmt.Sprintf("(not (= r!f %s))", r))
+		}
+	}
+	return fmt.Sprintf("(forall ((r!f Int)) (! (=> (and (<= 0 r!f) (<= r!f %s) %s) (= (select %s r!f) (select %s r!f))) :pattern ((select %s r!f))))",
+		e.initAlloc, strings.Join(append(excl, "true"), " "), cur, init, cur)
+}
+
+// checkFrame: everything outside the modifies clause is unchanged for objects
+// that existed at entry.
+func (e *Engine) checkFrame(st *State, fn *ssa.Function, c *Contract, env *Env) {
 	var names []string
 	for h := range st.heap {
 		names = append(names, h)
 	}
 	sort.Strings(names)
 	for _, h := range names {
-		cur := st.heap[h]
-		init := h + "!0"
-		if cur == init {
-			continue
+		if f := e.frameFormula(st, h); f != "" {
+			e.addObl(st, fmt.Sprintf("%s.frame.%s", e.oblPrefix(fn), h), "frame", "objects existing at entry unchanged outside modifies", f)
 		}
-		d := decls[h]
-		if d != nil && d.all {
-			continue
-		}
-		name := fmt.Sprintf("%s.frame.%s", e.oblPrefix(fn), h)
-		if strings.HasPrefix(h, "G_") {
-			e.addObl(st, name, "frame", "global unchanged (not in modifies)", fmt.Sprintf("(= %s %s)", cur, init))
-			continue
-		}
-		var excl []string
-		if d != nil {
-			for _, r := range d.refs {
-				excl = append(excl, fmt.Sprintf("(not (= r!f %s))", r))
-			}
-		}
-		goal := fmt.Sprintf("(forall ((r!f Int)) (=> (and (<= 0 r!f) (<= r!f %s) %s) (= (select %s r!f) (select %s r!f))))",
-			e.initAlloc, strings.Join(append(excl, "true"), " "), cur, init)
-		e.addObl(st, name, "frame", "objects existing at entry unchanged outside modifies", goal)
 	}
 }
